@@ -104,6 +104,15 @@ else:
             if ref.__forward_evaluated__:
                 return ref.__forward_value__
 
+            if ref.__forward_module__ is None and globalns is None:
+                # A reference `typing` made itself (`List["Node"]`) names no module:
+                #   look for it as we do for a bare string.
+                ref = forwardref(
+                    ref.__forward_arg__,
+                    is_argument=ref.__forward_is_argument__,
+                    is_class=ref.__forward_is_class__,
+                )
+
             recursive_guard = recursive_guard or set()
             return ref._evaluate(globalns, localns, recursive_guard=recursive_guard)
 
